@@ -79,9 +79,13 @@ static std::string run(const Sx& c) {
     dbout = DbGrid::create(nx, dx, x0);
   } else dbout = makeDb(c[3], ndim, nvar, nfex, false);
   Model* model = makeModel(c[4], ndim, nvar);
-  ANeigh* neigh;
-  if (c[5][0].i() == 0) neigh = NeighUnique::create();
-  else neigh = NeighMoving::create(false, (int) c[5][2].i(), c[5][3].d(), (int) c[5][1].i());
+  auto mkNeigh = [&]() -> ANeigh* {
+    if (c[5][0].i() == 0) return NeighUnique::create();
+    NeighMoving* nm = NeighMoving::create(false, (int) c[5][2].i(), c[5][3].d(), (int) c[5][1].i());
+    if (c[5].size() > 4 && c[5][4].size() > 0) nm->setDistCont(c[5][4].d());   // continuous moving neighbourhood
+    return nm;
+  };
+  ANeigh* neigh = mkNeigh();
   EKrigOpt calcul = EKrigOpt::POINT; VectorInt ndiscs;
   if (c[6][0].i() == 1) { calcul = EKrigOpt::BLOCK; for (size_t i = 1; i < c[6].size(); i++) ndiscs.push_back((int) c[6][i].i()); }
   // options: (flag_std flag_varz)
@@ -101,6 +105,21 @@ static std::string run(const Sx& c) {
   int iptrEst = dbout->addColumnsByConstant(nvar, TEST);
   int iptrStd = dbout->addColumnsByConstant(nvar, TEST);
   int iptrVarZ = dbout->addColumnsByConstant(nvar, TEST);
+  // every target alone, on a fresh system and a fresh neighbourhood object: the sequence below must give the same outputs
+  // (no state may survive from one target to the next)
+  std::vector<VectorDouble> alone(c[7].size());
+  {
+    int jEst = dbout->addColumnsByConstant(nvar, TEST), jStd = dbout->addColumnsByConstant(nvar, TEST), jVarZ = dbout->addColumnsByConstant(nvar, TEST);
+    for (size_t k = 0; k < c[7].size(); k++) {
+      int it = (int) c[7][k].i();
+      ANeigh* ng = mkNeigh();
+      KrigingSystem ks(dbin, dbout, model, ng);
+      bool ok1 = !ks.updKrigOptEstim(jEst, jStd, jVarZ) && !ks.setKrigOptCalcul(calcul, ndiscs, false) && ks.isReady();
+      if (ok1) { ks.estimate(it); ks.conclusion(); }
+      for (int v = 0; v < nvar; v++) { alone[k].push_back(dbout->getArray(it, jEst + v)); alone[k].push_back(dbout->getArray(it, jStd + v)); alone[k].push_back(dbout->getArray(it, jVarZ + v)); }
+      delete ng;
+    }
+  }
   KrigingSystem ksys(dbin, dbout, model, neigh);
   bool ok = true;
   if (ksys.updKrigOptEstim(iptrEst, iptrStd, iptrVarZ)) ok = false;
@@ -109,6 +128,7 @@ static std::string run(const Sx& c) {
   o << (ok ? 1 : 0) << " (";
   if (ok) {
     CovCalcMode mLHS(ECalcMember::LHS), mRHS(ECalcMember::RHS), mVAR(ECalcMember::VAR);
+    size_t kt = 0;
     for (auto& t : c[7].l) {
       int it = (int) t.i();
       int err = ksys.estimate(it);
@@ -164,7 +184,7 @@ static std::string run(const Sx& c) {
           o << "("; for (int a = 0; a < nvar; a++) { o << "("; for (int b = 0; b < nvar; b++) o << (b ? " " : "") << sx_d(model->eval(p1, p2, a, b, &mVAR)); o << ")"; } o << ")";
         }
       }
-      o << "))";
+      o << ") " << sx_vd(alone[kt]) << ")"; kt++;
     }
     ksys.conclusion();
   }
